@@ -96,3 +96,37 @@ def with_in_loop(xs: list[fp.Real]):
 
 ALL = [total, early_return, mutate_iterated, nested, countdown, while_early, zip_dot, enum_sum, any_pos, reassign_outer,
        loop_var_after, with_in_loop]
+
+@fp.fpy
+def fuse_while(xs: list[fp.Real]):
+    i = 0
+    while any([x > i for x in xs]):
+        with fp.REAL:
+            i = i + 1
+    return i
+
+@fp.fpy
+def fuse_clobber(xs: list[fp.Real]):
+    x = 100
+    b = any([x > 0 for x in xs])
+    return (b, x)
+
+@fp.fpy
+def zip_alias(xs: list[fp.Real]):
+    acc = 0
+    for a, b in zip(xs, xs):
+        if len(xs) > 1:
+            xs[1] = 50
+        acc = acc + a + b
+    return acc
+
+@fp.fpy
+def enum_alias(xs: list[fp.Real]):
+    acc = 0
+    for i, a in enumerate(xs):
+        if len(xs) > 2:
+            xs[2] = 7
+        acc = acc + a * i
+    return acc
+
+ALL += [fuse_while, fuse_clobber, zip_alias, enum_alias]
